@@ -23,6 +23,12 @@
   * code_range         `code_range_fixed`, `code_range_fixed_chunked`: only codes ≤ 0x1F, never the
                        heartbeat, reach the dispatcher.
   * `parseFixed_agrees`: the repairs change nothing on streams that did not crash the old code.
+  * "at worst it drops the connection" — dropping must itself be safe when several goroutines do
+    it at once (readLoop on garbage, handlePeer on the rejected message before it, heartbeatLoop,
+    runPeer, UnRegister): `close_mutex_safe`, `close_exactly_once` (any number of closers, every
+    schedule: no panic, stopCh closed exactly once), `close_race_free` (the same for the code as
+    described by the regenerated fact table `Close.closeSites`), refutation without the mutex:
+    `close_race_refuted` (two closers, check-check-close-close).
 
   DOCUMENTATION of what the repairs close (about the code before the commits above):
   * `parse_total_refuted_cryptBlocks` (7 bytes, any key), `parse_total_refuted_shortPlain`
@@ -35,6 +41,7 @@
 -/
 import LemoModel.Frame
 import LemoProofs.Lemmas.FrameLemmas
+import LemoProofs.Lemmas.CloseLemmas
 namespace LemoProofs.C15
 open LemoModel.Frame LemoProofs.FrameLemmas
 
@@ -782,5 +789,51 @@ theorem witness_hs_ecies_now :
     (hsStepFixed (fun _ => true) (fun _ => true) realCfg flat
       ([0x5a, 0x48, 0, 0, 0, 98] ++ (4 :: List.replicate 97 0))).out = .err .ecies := by
   decide
+
+/-! ### dropping the connection from several goroutines at once (`Peer.Close`) -/
+
+section close
+open LemoModel.Frame.Close LemoProofs.CloseLemmas
+
+/-- FULL: with `p.wmu` around check+close, for ANY number of closers and EVERY schedule, nobody
+    panics and `close(p.stopCh)` is executed at most once -/
+theorem close_mutex_safe (sched : List Nat) :
+    (run true init sched).panicked = false ∧ (run true init sched).closes ≤ 1 := by
+  have h := run_inv sched init init_inv
+  refine ⟨h.noPanic, ?_⟩
+  rw [h.cnt]
+  split <;> omega
+
+/-- … and exactly once as soon as one closer has returned from `Close` -/
+theorem close_exactly_once (sched : List Nat) (i : Nat) (hd : (run true init sched).pc i = .done) :
+    (run true init sched).closed = true ∧ (run true init sched).closes = 1 := by
+  have h := run_inv sched init init_inv
+  have hc := h.fin i (Or.inl hd)
+  refine ⟨hc, ?_⟩
+  rw [h.cnt, hc]
+  rfl
+
+/-- every closer that is scheduled often enough does return (no deadlock on `wmu` in the
+    round-robin schedule); non-vacuity of `close_exactly_once` for 3 closers -/
+example : (run true init (roundRobin 3)).pc 0 = .done ∧ (run true init (roundRobin 3)).pc 1 = .done ∧
+    (run true init (roundRobin 3)).pc 2 = .done ∧ (run true init (roundRobin 3)).closes = 1 := by
+  decide
+
+/-- REFUTATION without the mutex (`Close` = bare `safeClose`): two closers, both run the check
+    before either closes — the second `close(p.stopCh)` panics -/
+theorem close_race_refuted : (run false init [0, 1, 0, 1, 0, 1]).panicked = true := by
+  decide
+
+/-- the fact table regenerated from network/p2p says check+close run under the mutex … -/
+theorem close_sites_guarded : mutexOfTable = true := by
+  decide
+
+/-- … hence, for the code as it is: any number of simultaneous closers, every schedule -/
+theorem close_race_free (sched : List Nat) :
+    (run mutexOfTable init sched).panicked = false ∧ (run mutexOfTable init sched).closes ≤ 1 := by
+  rw [close_sites_guarded]
+  exact close_mutex_safe sched
+
+end close
 
 end LemoProofs.C15
